@@ -27,7 +27,10 @@ inline arr_real arange(real_t stop) {
 }
 
 inline arr_real arange(int start, int stop, int step = 1) {
-    const auto n = (int)std::round((stop - start) / double(step));
+    //number of values start + k*step (k >= 0) lying strictly before stop; none when the step points away from stop
+    const long long span = static_cast<long long>(stop) - start;
+    const long long astep = std::abs(static_cast<long long>(step));
+    const int n = ((step != 0) && (span != 0) && ((span > 0) == (step > 0))) ? static_cast<int>((std::abs(span) + astep - 1) / astep) : 0;
     arr_real r(n);
     for (int i = 0; i < n; ++i) {
         r[i] = start;
